@@ -1156,4 +1156,35 @@ theorem call_current (st : St) (cl : Closure) (hc : CInv st cl) :
   · rw [if_pos hf]; exact ⟨hc.2 hf, hc, rfl, rfl⟩
   · rw [if_neg hf]; exact ⟨rfl, ⟨Nat.le_refl _, fun _ => rfl⟩, rfl, rfl⟩
 
+/-! ### perspectives -/
+
+theorem find?_filterMap_key (F : Opt → Option POpt) (hF : ∀ o e, F o = some e → e.key = o.key) :
+    ∀ (l : List Opt), (l.map (·.key)).Nodup → ∀ o ∈ l,
+      (l.filterMap F).find? (fun e => e.key = o.key) = F o
+  | [], _, o, ho => by cases ho
+  | p :: rest, hnd, o, ho => by
+    simp only [List.map_cons, List.nodup_cons] at hnd
+    rcases List.mem_cons.mp ho with rfl | ho'
+    · cases hFo : F o with
+      | none =>
+        simp only [List.filterMap_cons, hFo]
+        rw [List.find?_eq_none]
+        intro e he
+        simp only [List.mem_filterMap] at he
+        obtain ⟨o', ho', hFo'⟩ := he
+        have := hF o' e hFo'
+        simp only [decide_eq_true_eq]
+        intro hek
+        exact hnd.1 (by rw [← hek, this]; exact List.mem_map_of_mem ho')
+      | some e =>
+        simp only [List.filterMap_cons, hFo, List.find?, hF o e hFo, decide_true]
+    · have hne : p.key ≠ o.key := fun e => hnd.1 (e ▸ List.mem_map_of_mem ho')
+      have ih := find?_filterMap_key F hF rest hnd.2 o ho'
+      cases hFp : F p with
+      | none => simp only [List.filterMap_cons, hFp]; exact ih
+      | some e =>
+        have : ¬ e.key = o.key := by rw [hF p e hFp]; exact hne
+        simp only [List.filterMap_cons, hFp, List.find?, this, decide_false]
+        exact ih
+
 end PB.Config
